@@ -1421,8 +1421,8 @@ class C14(Prop):
         for _ in range(ctx.scale(8000, 100000)):
             h = gen_host_lit(rng)
             prim.append({"kind": "host", "s": h})
-            if h and rng.random() < 0.5:
-                prim.append({"kind": "hostname", "s": h})
+            if rng.random() < 0.5:
+                prim.append({"kind": "hostname", "s": h if rng.random() < 0.97 else ""})
             if "\x00" not in h and rng.random() < 0.5:
                 prim.append({"kind": rng.choice(["ip4", "ip6"]), "s": h})
         for _ in range(ctx.scale(1500, 20000)):
